@@ -1,6 +1,8 @@
 // S-harness for cocls::queue<item_t>, cocls::queue<void> and cocls::limited_queue<item_t> (C09, C10).
 // Reads cases from stdin, prints one canonical line per operation (see lean/Drivers/C09.lean, C10.lean).
-// Kinds: `lq <limit>` (C10 sequential, run_case), `q` / `vq` (C09 sequential, run_qcase),
+// Kinds: `lq <limit> [nl]` (C10 sequential, run_case), `q [nl|s1|w1|s1w1|w1m]` / `vq [nl|w1]` (C09 sequential, run_qcase;
+// the token selects the Queue / CoroQueue / Lock template arguments: s1 = Queue single_item_queue, w1 = CoroQueue
+// single_item_queue, nl = primitives::no_lock (implied by s1/w1; w1m keeps std::mutex)),
 // `sq` / `svq` / `slq <limit>` (C09 / C10 scheduled interleavings, run_sched), `mtq` / `mtv` (C09 threads, run_mtcase).
 #include "common.h"
 #include <cocls/queue.h>
@@ -46,11 +48,12 @@ struct lq_t : limited_queue<item_t> {
     suspend_point<bool> upop(std::exception_ptr e) { return this->unblock_pop(e); }
 };
 
-// queue<T> with a way to ask whether its lock is free
-template <typename T>
-struct q_t : queue<T> {
+// queue<T, Queue, CoroQueue, Lock> (any configuration) with a way to ask whether its lock is free
+template <typename T, template <typename> class QS = primitives::std_queue,
+          template <typename> class CS = primitives::std_queue, typename L = std::mutex>
+struct q_t : queue<T, QS, CS, L> {
     // asked from another thread (try_lock on a mutex the caller owns would be undefined); retried because try_lock may
-    // fail spuriously
+    // fail spuriously.  (primitives::no_lock: try_lock() is always true.)
     bool lock_is_free() {
         bool ok = false;
         std::thread t([&] {
@@ -60,6 +63,12 @@ struct q_t : queue<T> {
         t.join();
         return ok;
     }
+};
+// limited_queue with primitives::no_lock (single-threaded use is the contract of no_lock)
+struct lq_nl_t : limited_queue<item_t, primitives::std_queue, primitives::std_queue, primitives::std_queue, primitives::no_lock> {
+    using base = limited_queue<item_t, primitives::std_queue, primitives::std_queue, primitives::std_queue, primitives::no_lock>;
+    using base::base;
+    suspend_point<bool> upop(std::exception_ptr e) { return this->unblock_pop(e); }
 };
 
 template <typename Q, typename T, bool limited>
@@ -193,6 +202,10 @@ async<void> consumer(qcase<Q, T> &c, int n) {
             out = "canceled"; stop = true;
         } catch (const test_exc &e) {
             out = "exc:" + std::to_string(e.code); stop = true;
+        } catch (const std::runtime_error &) {
+            // bounded CoroQueue (single_item_queue) is full: pop() threw, no future came into existence
+            c.pops.pop_back();
+            break;
         } catch (...) {
             out = "other"; stop = true;
         }
@@ -223,8 +236,16 @@ struct cb_consumer {
         std::string o = vh::outcome(*fut);
         c.pops[cur].out = o;
         c.pops[cur].done = true;
+        bool value = o == "ok" || o.rfind("v:", 0) == 0;
+        if ((value || o.rfind("exc:", 0) == 0) && in_callback && !c.q->lock_is_free()) {
+            // re-entering now would block for ever on the lock the resolving call still holds: say so at once
+            fflush(stdout);
+            fprintf(stderr, "DEADLOCK: the queue resolved a promise while holding its lock; a callback that calls back "
+                            "into the queue (pop / empty) can never return\n");
+            _exit(42);
+        }
         if (o.rfind("exc:", 0) == 0) (void)c.q->empty();     // the queue is alive: look at it from inside the callback
-        return o == "ok" || o.rfind("v:", 0) == 0;
+        return value;
     }
     void issue() {
         while (left > 0) {
@@ -233,12 +254,19 @@ struct cb_consumer {
             c.pops.emplace_back();
             c.pops[cur].coro = true;
             if (fut) old.push_back(std::move(fut));
-            fut.reset(new future<T>([&] { return c.q->pop(); }));
+            try {
+                fut.reset(new future<T>([&] { return c.q->pop(); }));
+            } catch (const std::runtime_error &) {
+                c.pops.pop_back();      // bounded CoroQueue is full: pop() threw, no future
+                left = 0;
+                return;
+            }
             if (fut->subscribe(&awt)) return;       // parked: wake() continues
             if (!record()) return;
         }
     }
-    void on_ready() { if (record()) issue(); }
+    bool in_callback = false;
+    void on_ready() { in_callback = true; bool v = record(); if (v) issue(); in_callback = false; }
 };
 
 template <typename Q, typename T>
@@ -266,14 +294,18 @@ void run_qcase(std::istream &in) {
             alarm(0);
             return;
         } else if (w[0] == "push") {
-            bool r;
-            if constexpr (std::is_void_v<T>) {
-                r = c.q->push();
-            } else {
-                int v = w.size() > 1 ? atoi(w[1].c_str()) : 0;
-                r = c.q->push(v);
+            try {
+                bool r;
+                if constexpr (std::is_void_v<T>) {
+                    r = c.q->push();
+                } else {
+                    int v = w.size() > 1 ? atoi(w[1].c_str()) : 0;
+                    r = c.q->push(v);
+                }
+                head << "push woke=" << r;
+            } catch (const std::runtime_error &) {
+                head << "push full";    // bounded Queue (single_item_queue) refused the item
             }
-            head << "push woke=" << r;
         } else if (w[0] == "pushthrow") {
             // an item whose constructor throws: push() throws; a waiting pop whose promise it had taken completes as
             // canceled (the promise layer resolves the future without a value before the exception propagates)
@@ -285,6 +317,8 @@ void run_qcase(std::istream &in) {
                     head << "pushthrow nothrow woke=" << r;
                 } catch (const item_error &) {
                     head << "pushthrow threw";
+                } catch (const std::runtime_error &) {
+                    head << "pushthrow full";
                 }
                 if (!c.q->lock_is_free()) {
                     // every later operation would block for ever: say so now instead of waiting for the alarm
@@ -297,10 +331,15 @@ void run_qcase(std::istream &in) {
         } else if (w[0] == "pop") {
             std::size_t id = c.pops.size();
             c.pops.emplace_back();
-            c.pops[id].f.reset(new future<T>([&] { return c.q->pop(); }));
-            std::string st = vh::outcome(*c.pops[id].f);
-            if (st != "pending") c.pops[id].reported = true;
-            head << "pop#" << id << " " << st;
+            try {
+                c.pops[id].f.reset(new future<T>([&] { return c.q->pop(); }));
+                std::string st = vh::outcome(*c.pops[id].f);
+                if (st != "pending") c.pops[id].reported = true;
+                head << "pop#" << id << " " << st;
+            } catch (const std::runtime_error &) {
+                c.pops.pop_back();      // bounded CoroQueue refused the promise: no future, no id
+                head << "pop full";
+            }
         } else if (w[0] == "cons" && w.size() > 1) {
             int n = atoi(w[1].c_str());
             consumer<Q, T>(c, n).detach();     // the discarded suspend_point starts the coroutine right here
@@ -785,7 +824,19 @@ int main() {
         if (w.empty() || w[0] != "case") continue;
         std::cout << "case " << w[1] << "\n";
         const std::string &kind = w[2];
-        if (kind == "q") run_qcase<q_t<item_t>, item_t>(std::cin);
+        using primitives::std_queue;
+        using primitives::single_item_queue;
+        using primitives::no_lock;
+        const std::string cfg = w.size() > 3 ? w[3] : "";
+        if (kind == "q" && cfg == "nl") run_qcase<q_t<item_t, std_queue, std_queue, no_lock>, item_t>(std::cin);
+        else if (kind == "q" && cfg == "s1") run_qcase<q_t<item_t, single_item_queue, std_queue, no_lock>, item_t>(std::cin);
+        else if (kind == "q" && cfg == "w1") run_qcase<q_t<item_t, std_queue, single_item_queue, no_lock>, item_t>(std::cin);
+        else if (kind == "q" && cfg == "s1w1") run_qcase<q_t<item_t, single_item_queue, single_item_queue, no_lock>, item_t>(std::cin);
+        else if (kind == "q" && cfg == "w1m") run_qcase<q_t<item_t, std_queue, single_item_queue, std::mutex>, item_t>(std::cin);
+        else if (kind == "vq" && cfg == "nl") run_qcase<q_t<void, std_queue, std_queue, no_lock>, void>(std::cin);
+        else if (kind == "vq" && cfg == "w1") run_qcase<q_t<void, std_queue, single_item_queue, no_lock>, void>(std::cin);
+        else if (kind == "lq" && w.size() > 4 && w[4] == "nl") run_case<lq_nl_t, item_t, true>(std::cin, (std::size_t)atoi(w[3].c_str()));
+        else if (kind == "q") run_qcase<q_t<item_t>, item_t>(std::cin);
         else if (kind == "vq") run_qcase<q_t<void>, void>(std::cin);
         else if (kind == "sq") run_sched<sq_adapter<item_t>>(std::cin, 0);
         else if (kind == "svq") run_sched<sq_adapter<void>>(std::cin, 0);
